@@ -382,19 +382,29 @@ theorem write_other (E : HEnv F D Mat Vec) (h : Heap F D Mat Vec) (i j : Nat) (g
 /-- `sv.cov = obj_i` re-seats the private copy of `obj_i` only -/
 theorem attach_other (E : HEnv F D Mat Vec) (h : Heap F D Mat Vec) (hw : WF h) (s i j : Nat) (hj : j < h.nobj) (hs : Sep h i j) :
     (h.attach s i).view E j = h.view E j := by
+  have hji : j ≠ i := fun e => hs.1 (e ▸ rfl)
   apply view_congr
-  · rfl
+  · exact upd_other _ _ hji
   · exact upd_other _ _ (Ne.symm hs.2)
   · exact upd_other _ _ (Nat.ne_of_lt (hw.orb _ (hw.data j hj)))
   · rfl
 
+/-- `sv.cov = obj_i` changes neither the memory nor the dict any object names -/
+theorem attach_obj (h : Heap F D Mat Vec) (s i k : Nat) :
+    ((h.attach s i).obj k).buf = (h.obj k).buf ∧ ((h.attach s i).obj k).data = (h.obj k).data ∧ ((h.attach s i).obj k).tr = (h.obj k).tr := by
+  simp only [Heap.attach, upd]
+  split
+  · next e => subst e; exact ⟨rfl, rfl, rfl⟩
+  · exact ⟨rfl, rfl, rfl⟩
+
 /-- **`sv.cov = obj_i`, looked at through `obj_i`, is `Cov.attach` of Model/Cov.lean**: the private copy becomes the
-state as it is expressed now (its frame, its coordinates, its date); tag, `_orb_frame` and values are untouched.  This ties
-the single-object `attach` the theorems of Props/C14Attach.lean are about to the heap operation the correspondence runs. -/
-theorem attach_self (E : HEnv F D Mat Vec) (h : Heap F D Mat Vec) (s i : Nat) (f : F) (hf : (h.obj i).orbFrame = some f) :
+state as it is expressed now (its frame, its coordinates, its date) and `_orb_frame` the frame of that copy (since /repo
+eca9727); tag and values are untouched.  This ties the single-object `attach` the theorems of Props/C14Attach.lean are
+about to the heap operation the correspondence runs. -/
+theorem attach_self (E : HEnv F D Mat Vec) (h : Heap F D Mat Vec) (s i : Nat) :
     ((h.attach s i).view E i).st = Cov.attach (h.view E i).st (h.sv s).frame (h.sv s).x ∧
-    ((h.attach s i).view E i).date = (h.sv s).date ∧ ((h.attach s i).view E i).orbFrame = (h.view E i).orbFrame := by
-  simp only [Heap.attach, Heap.view, upd_same, View.st, Cov.attach, hf, Option.getD_some]
+    ((h.attach s i).view E i).date = (h.sv s).date ∧ ((h.attach s i).view E i).orbFrame = some (h.sv s).frame := by
+  simp only [Heap.attach, Heap.view, upd_same, View.st, Cov.attach, Option.getD_some]
   exact ⟨rfl, trivial, trivial⟩
 
 /-- `sv.frame = g` touches, among the covariances, at most the one attached to `sv` -/
@@ -505,7 +515,7 @@ theorem wf_write (E : HEnv F D Mat Vec) (h : Heap F D Mat Vec) (i : Nat) (g : Ma
   ⟨hw.buf, hw.data, hw.orb⟩
 
 theorem wf_attach (h : Heap F D Mat Vec) (s i : Nat) (hw : WF h) : WF (h.attach s i) := by
-  refine ⟨hw.buf, hw.data, fun k hk => ?_⟩
+  refine ⟨fun j hj => (attach_obj h s i j).1 ▸ hw.buf j hj, fun j hj => (attach_obj h s i j).2.1 ▸ hw.data j hj, fun k hk => ?_⟩
   show ((h.attach s i).data k).orb < h.norb + 1
   simp only [Heap.attach, upd]
   split
@@ -623,7 +633,12 @@ theorem step_allSep (E : HEnv F D Mat Vec) (h : Heap F D Mat Vec) (hw : WF h) (h
   cases op with
   | hop i t => exact keep _ (hop_obj E h i t) (hop_counters E h i t).1
   | svHop s g => exact keep _ (svHop_obj E h s g).1 (svHop_obj E h s g).2
-  | attach s i => exact keep _ rfl rfl
+  | attach s i =>
+    intro a b ha hb hab
+    unfold Sep
+    show ((h.attach s i).obj a).buf ≠ ((h.attach s i).obj b).buf ∧ ((h.attach s i).obj a).data ≠ ((h.attach s i).obj b).data
+    rw [(attach_obj h s i a).1, (attach_obj h s i b).1, (attach_obj h s i a).2.1, (attach_obj h s i b).2.1]
+    exact hall a b ha hb hab
   | write i g => exact keep _ rfl rfl
   | newCov s tag c => exact grow _ rfl (old _) (newCov_spec E h hw s tag c).2.2.2.1
   | fromCov s i => exact grow _ rfl (old _) (newCov_spec E h hw s _ _).2.2.2.1
